@@ -36,6 +36,10 @@ structure Formulas where
   rtruediv : Rat → Rat → Rat → Rat → Supp
   neg : Rat → Rat → Supp
   abs : Rat → Rat → Supp
+  /-- `geometry._hypotSupport`: the bounds (l, r) of one argument of `hypot` are replaced by bounds of its
+      absolute value before `math.hypot` is applied to all lower / all upper bounds (the identity when `hypot` is
+      declared a `monotonicDistributionFunction`) -/
+  hypAbs : Rat → Rat → Rat × Rat
   /-- operators handled by the binary branch (operator, reflected), with the formula each one uses -/
   binOps : List (BinOp × Bool × FKey)
   /-- operators handled by the unary branch -/
@@ -68,6 +72,7 @@ inductive SExpr where
   | drange (lo hi : SExpr)               -- DiscreteRange(lo, hi)
   | mux (opts : List SExpr)              -- Options / MultiplexerDistribution (also attribute-of-mux)
   | mono (f : Fn) (args : List SExpr)    -- monotonicDistributionFunction
+  | hypot (args : List SExpr)            -- geometry.hypot (support = _hypotSupport)
   | truncnormal (lo hi : Rat)
   deriving Inhabited
 
@@ -106,9 +111,24 @@ def monoBound (f : Fn) (os : List (Option Rat)) : Option (Option Rat) :=
   | none => some none
   | some qs => (monoApply f qs).map some
 
+/-- `_hypotSupport`: `None, None` as soon as a bound of an argument is unknown; otherwise the lists of transformed
+    lower and upper bounds -/
+def hypBounds (F : Formulas) : List Supp → Option (List Rat × List Rat)
+  | [] => some ([], [])
+  | (some l, some r) :: rest =>
+    (hypBounds F rest).map fun (ls, hs) => ((F.hypAbs l r).1 :: ls, (F.hypAbs l r).2 :: hs)
+  | _ :: _ => none
+
+/-- `hyp` stands for `math.hypot` on floats (an uninterpreted function: the theorems assume only that it is
+    monotone in the absolute values of its arguments; the driver instantiates it with a rational approximation) -/
+def hypSupport (F : Formulas) (hyp : List Rat → Rat) (ss : List Supp) : Supp :=
+  match hypBounds F ss with
+  | none => (none, none)
+  | some (ls, hs) => (some (hyp ls), some (hyp hs))
+
 mutual
   /-- `supportInterval(dist)`; the outer `none` = an exception is raised (no bounds are reported) -/
-  def support (F : Formulas) (ivs : Nat → Supp) : SExpr → Option Supp
+  def support (F : Formulas) (hyp : List Rat → Rat) (ivs : Nat → Supp) : SExpr → Option Supp
     | .const q => some (some q, some q)
     | .opaque => some (none, none)
     | .leaf i => some (ivs i)
@@ -116,7 +136,7 @@ mutual
       match F.binF op refl with
       | none => some (none, none)
       | some f =>
-        (support F ivs obj).bind fun s1 => (support F ivs arg).bind fun s2 =>
+        (support F hyp ivs obj).bind fun s1 => (support F hyp ivs arg).bind fun s2 =>
           match s1, s2 with
           | (some l1, some r1), (some l2, some r2) => some (f l1 r1 l2 r2)
           | _, _ => some (none, none)
@@ -124,22 +144,23 @@ mutual
       match F.unF op with
       | none => some (none, none)
       | some f =>
-        (support F ivs obj).bind fun s =>
+        (support F hyp ivs obj).bind fun s =>
           match s with
           | (some l, some r) => some (f l r)
           | _ => none                      -- `-None` / `None < 0` raise TypeError
     | .range lo hi =>
-      (support F ivs lo).bind fun s1 => (support F ivs hi).bind fun s2 => some (unionOfSupports [s1, s2])
+      (support F hyp ivs lo).bind fun s1 => (support F hyp ivs hi).bind fun s2 => some (unionOfSupports [s1, s2])
     | .drange lo hi =>
-      (support F ivs lo).bind fun s1 => (support F ivs hi).bind fun s2 => some (s1.1, s2.2)
-    | .mux opts => (supportList F ivs opts).map unionOfSupports
+      (support F hyp ivs lo).bind fun s1 => (support F hyp ivs hi).bind fun s2 => some (s1.1, s2.2)
+    | .mux opts => (supportList F hyp ivs opts).map unionOfSupports
     | .mono f args =>
-      (supportList F ivs args).bind fun ss =>
+      (supportList F hyp ivs args).bind fun ss =>
         (monoBound f (ss.map (·.1))).bind fun l => (monoBound f (ss.map (·.2))).map fun h => (l, h)
+    | .hypot args => (supportList F hyp ivs args).map (hypSupport F hyp)
     | .truncnormal lo hi => some (some lo, some hi)
-  def supportList (F : Formulas) (ivs : Nat → Supp) : List SExpr → Option (List Supp)
+  def supportList (F : Formulas) (hyp : List Rat → Rat) (ivs : Nat → Supp) : List SExpr → Option (List Supp)
     | [] => some []
-    | e :: rest => (support F ivs e).bind fun s => (supportList F ivs rest).map (s :: ·)
+    | e :: rest => (support F hyp ivs e).bind fun s => (supportList F hyp ivs rest).map (s :: ·)
 end
 
 end Scenic.Support
